@@ -54,6 +54,9 @@ def plan(tier, seed):
                 K.compatible(solver, df, p, "dense", False, st) for st in info["strategies"])]
             shards.append(dict(name="straddle/%s/%s" % (solver, df), solver=solver, datafit=df, penalties=pens[:4],
                                reps={"quick": 3, "thorough": 25}[tier], straddle=True))
+    for sv, df, pen in K.TOLSWEEP_FAMILIES:
+        shards.append(dict(name="tolsweep/%s/%s/%s" % (sv, df, pen), solver=sv, datafit=df, penalties=[pen],
+                           reps={"quick": 2, "thorough": 12}[tier], tolsweep={"quick": 12, "thorough": 24}[tier]))
     return shards
 
 
@@ -128,6 +131,10 @@ def run_shard(spec, emit):
                 if solver == "MultiTaskBCD":
                     cs["knobs"]["max_epochs"] = 11          # (smaller budgets: see gen_spec)
                     cs["knobs"]["use_acc"] = True
+            if spec.get("tolsweep"):
+                for i, c2 in enumerate(K.tol_sweep(rng, cs, spec["tolsweep"])):
+                    run_case(emit, "tolsweep/%s/t%d" % (cid, i), c2, sample=False)
+                continue
             run_case(emit, cid, cs, sample=(rep == 0 and pen == spec["penalties"][0]))
 
 
